@@ -694,9 +694,15 @@ def gen_rule(rng):
     return "%d/%s" % (rng.choice([-1, 0, 1, 2, 2, 3, 5]), rng.choice(["s", "min", "h"]))
 
 
-def gen_limiter_scenario(rng, backend):
+SCOPE_SHAPES = [["1.1.1.1"], ["global"], ["ip"], ["::1", "1.1.1.1"], ["global", "ip"], ["ip", "::1"]]      # every shape of a rule table is seen by the first six scenarios
+
+
+def gen_limiter_scenario(rng, backend, index=None):
     rules = {}
-    for sc in rng.sample(["global", "ip", "1.1.1.1", "::1"], rng.randint(1, 3)):
+    scopes = rng.sample(["global", "ip", "1.1.1.1", "::1"], rng.randint(1, 3))
+    if index is not None and index < len(SCOPE_SHAPES):
+        scopes = SCOPE_SHAPES[index]
+    for sc in scopes:
         rules[sc] = {}
         for cmd in rng.sample(["ACCEPT", "EVENT", "REQ", "CLOSE"], rng.randint(1, 3)):
             rules[sc][cmd] = ",".join(gen_rule(rng) for _ in range(rng.randint(1, 2)))
@@ -913,8 +919,8 @@ def suite_app_limiter(tier, seed, backends=("sql",), n=None):
     from .props import c18
     mcases = []
     for b in backends:
-        for _ in range(n):
-            sc = gen_limiter_scenario(rng, b)
+        for i_ in range(n):
+            sc = gen_limiter_scenario(rng, b, index=i_)
             a, d = judge(s, sc)
             dec = [x for x in a["limiter"] if len(x) == 4]
             ref = sum(1 for x in dec if x[3])
